@@ -3,6 +3,7 @@ package catalog
 import (
 	"errors"
 	"fmt"
+	"strings"
 
 	jschemaLib "github.com/jsightapi/jsight-schema-go-library"
 	"github.com/jsightapi/jsight-schema-go-library/bytes"
@@ -558,6 +559,17 @@ func (c *Catalog) AddJsonRpcMethod(d directive.Directive) *jerr.JApiError {
 
 	if c.Interactions.Has(rpcId) {
 		return d.KeywordError(fmt.Sprintf("method is already defined in resource %s", rpcId.String()))
+	}
+
+	// A method name may contain spaces, so different (method, path) pairs can
+	// have the same textual id, which is the key of the interaction in the output.
+	if strings.Contains(rpcId.String(), "  ") || strings.Count(rpcId.String(), " ") > 2 {
+		_, ok := c.Interactions.Find(func(k InteractionID, _ Interaction) bool {
+			return k.String() == rpcId.String()
+		})
+		if ok {
+			return d.KeywordError(fmt.Sprintf("method is already defined in resource %s", rpcId.String()))
+		}
 	}
 
 	in := newJsonRpcInteraction(rpcId, d.NamedParameter("MethodName"), d.Annotation)
